@@ -601,6 +601,8 @@ int notify_fetchers(const struct element *e, const char *event_name)
 	return ret;
 }
 
+static void remove_fetch_from_states(const struct fetch *f);
+
 cJSON *add_fetch_to_states(const struct peer *request_peer, const cJSON *request, struct fetch *f)
 {
 	struct list_head *item;
@@ -610,7 +612,14 @@ cJSON *add_fetch_to_states(const struct peer *request_peer, const cJSON *request
 		const struct peer *p = list_entry(item, struct peer, next_peer);
 		int ret = add_fetch_to_states_in_peer(p, f);
 		if (unlikely(ret != 0)) {
-			return create_error_response_from_request(p, request, INTERNAL_ERROR, "reason", "could not add fetch to state");
+			/*
+			 * The fetch is refused, so it must not stay behind half registered:
+			 * no further events for it, and its id is free again.
+			 */
+			remove_fetch_from_states(f);
+			list_del(&f->next_fetch);
+			free_fetch(f);
+			return create_error_response_from_request(request_peer, request, INTERNAL_ERROR, "reason", "could not add fetch to state");
 		}
 	}
 
